@@ -42,6 +42,11 @@ RULE = ('store cases: a forest of real pulse templates of all 14 classes (random
         'structurally through their public properties, list orders kept), exact rational constants, numpy scalars, floats '
         'off the decimal grid as float / string / ExpressionScalar, constructor spellings found by the coverage audit; '
         'dur cases: the value of the declared duration under 4 assignments against the model term. '
+        'round 5 families: exprobj (expression texts with float sub-expressions whose printed parsed form differs from the '
+        'text, handed over as ExpressionScalar object / as text / through with_parallel_channels, in every expression '
+        'position), intval (integer channel ids as values, unflagged). doc and dur cases are correspondence-only case kinds '
+        '(check_spec = true for them); a failing case counts as a known finding only when every clause other than the load '
+        'clause holds and every failing root shows the symptom of the finding (classify). '
         'Non-trivial = at least one named sub-template below a root, a doc case that changes the document, a history '
         'with at least two operations one of which succeeds, or a dur case with a rational duration value.')
 TRUSTED = [
@@ -1401,7 +1406,12 @@ MANIFEST = {
                   'storage has loaded (C10_sharing, C10_sharing_general); parameter names, measurement names and defined '
                   'channels are model functions of all classes and equal for templates equal up to identity '
                   '(C10_interface_erase, C10_storage_interface); stored documents never embed a named template '
-                  '(C10_documents); refutation theorems for the known findings. Tied to /repo by an exact correspondence '
+                  '(C10_documents); refutation theorems for the known findings; round 5: the transaction guard of repo commit '
+                  'a5bca40 never fires on a tree in which one identifier is one object, in any storage state, so the guarded '
+                  'operations the correspondence check runs are the core operations of the theorems (C10_tx_guard_silent, '
+                  'C10_guarded_store_histories_are_core, C10_guarded_histories_are_core, C10_storage_guarded). NOT proved, tested '
+                  'only: identical samples and measurement windows of the instantiated program (2 parameter assignments), '
+                  'validity of the documents as JSON text, the three real backends (the model has one abstract backend). Tied to /repo by an exact correspondence '
                   'check on real template forests and operation histories over the dict, directory and zip backends '
                   '(documents, outcomes, loads, interface sets) and by a corpus of pinned documents that must keep loading.',
     'level_note': 'Partial: (1) text level (json.dumps/loads, sympy printing/parsing incl. the free-symbol table used by '
@@ -1410,14 +1420,18 @@ MANIFEST = {
                   'not derived from a template semantics; the duration term is evaluated in the model only on the '
                   'substitution-free fragment (no MappingPT / ForLoopPT above the compared node), atom values are an oracle '
                   'table; known finding float_precision_not_preserved (numpy float32/16 scalars, 16-17 digit decimal strings, '
-                  'ConstantPT with an ExpressionScalar float) is outside the model (text level); (3) the history theorems assume no identifier clash and no '
+                  'ConstantPT with an ExpressionScalar float, items of a vector valued PointPT entry) is outside the model (text level); (3) the history theorems assume no identifier clash and no '
                   'mutation (link_to) in the history; link_to histories and histories with delete through a second '
                   'PulseStorage are covered by the correspondence check only / not at all (a failed store that loaded a '
                   'child from the backend leaves it in the temporary storage: not modelled, unobservable on one storage); '
                   '(4) a linked placeholder below a parent is not modelled (storage key differs from the document\'s '
                   'identifier); (5) the transaction guard of repo commit a5bca40 (second object under one identifier in a '
                   'transaction is rejected) is a model function in front of the core operations (Tx.v), tied to the code by '
-                  'correspondence; that it never fires on consistent trees is not proved. Guards: string dict keys (finding '
+                  'correspondence; (6) check_spec uses the model function `repr` (an injective rendering) as its equality test on '
+                  'introspected terms and `node_encodable` in the premise of one clause (notes, round 5 audit); (7) the '
+                  'program clause (identical samples and windows) is tested, not proved; (8) which of two errors is raised '
+                  'when one tree has both an identifier clash and a dict with mixed int / str keys is not modelled (check_corr '
+                  'accepts RuntimeError or TypeError there). Guards: string dict keys (finding '
                   'int_channel_key), one identifier per object.',
     'technique': 'Coq proof (structural induction on nested template trees, transaction invariant for store, backend-agreement '
                  'invariant for histories with overwrite/delete, cache-closure invariant for load) + correspondence check '
